@@ -494,7 +494,7 @@ uint StringDictionaryPFC::searchPrefix(uchar **ptr, uint scanneable,
                               *decLen - sharedCurr, &sharedCurr);
 
     if (sharedCurr == strLen)
-      break;
+      return id;
     else {
       id++;
       if ((cmp > 0) || (id > scanneable))
@@ -507,7 +507,8 @@ uint StringDictionaryPFC::searchPrefix(uchar **ptr, uint scanneable,
     }
   }
 
-  return id;
+  // No string in the bucket uses the required prefix
+  return NORESULT;
 }
 
 uint StringDictionaryPFC::searchDistinctPrefix(uchar *ptr, uint scanneable,
